@@ -450,6 +450,60 @@ def _inc(o, n):
     return o
 
 
+def _apply(ev, fn, x, y):
+    from absint import Closure
+    if isinstance(fn, Closure):
+        return ev.truth(ev.call_closure(fn, [x, y]))
+    if fn is None:
+        return ev.binop("==", x, y)
+    raise Broken("algorithm called with a predicate the evaluator does not model")
+
+
+def _rng(a, b):
+    if a.vec is not b.vec:
+        raise OutOfBounds("an algorithm is given iterators into two different containers as one range")
+    if not (0 <= a.pos <= b.pos <= len(a.vec.items)):
+        raise OutOfBounds("an algorithm is given the range [%d, %d) of a container of %d" % (a.pos, b.pos, len(a.vec.items)))
+    return range(a.pos, b.pos)
+
+
+def _mismatch(ev, o, a):
+    f1, l1, f2 = a[0], a[1], a[2]
+    pred = a[3] if len(a) > 3 and not isinstance(a[3], It) else None
+    j = f2.pos
+    for i in _rng(f1, l1):
+        if not (0 <= j < len(f2.vec.items)):
+            raise OutOfBounds("std::mismatch reads element %d of a second range of %d" % (j, len(f2.vec.items)))
+        if not _apply(ev, pred, f1.vec.items[i], f2.vec.items[j]):
+            return (It(f1.vec, i), It(f2.vec, j))
+        j += 1
+    return (It(f1.vec, l1.pos), It(f2.vec, j))
+
+
+def _equal(ev, o, a):
+    f1, l1, f2 = a[0], a[1], a[2]
+    pred = a[3] if len(a) > 3 and not isinstance(a[3], It) else None
+    j = f2.pos
+    for i in _rng(f1, l1):
+        if not (0 <= j < len(f2.vec.items)):
+            raise OutOfBounds("std::equal reads element %d of a second range of %d" % (j, len(f2.vec.items)))
+        if not _apply(ev, pred, f1.vec.items[i], f2.vec.items[j]):
+            return False
+        j += 1
+    return True
+
+
+def _search(ev, o, a):
+    f1, l1, f2, l2 = a[0], a[1], a[2], a[3]
+    pred = a[4] if len(a) > 4 else None
+    r1, r2 = _rng(f1, l1), _rng(f2, l2)
+    n, m = len(r1), len(r2)
+    for s_ in range(0, n - m + 1):
+        if all(_apply(ev, pred, f1.vec.items[f1.pos + s_ + k], f2.vec.items[f2.pos + k]) for k in range(m)):
+            return It(f1.vec, f1.pos + s_)
+    return It(f1.vec, l1.pos)
+
+
 def vector_hooks():
     """summaries of std::vector / std::string members and of __normal_iterator's operators"""
     h = _vector_hooks()
@@ -503,6 +557,12 @@ def _vector_hooks():
         "std::begin<*": lambda ev, o, a: It(a[0], 0),
         "std::end<*": lambda ev, o, a: It(a[0], len(a[0].items)),
         "std::find<*": lambda ev, o, a: next((It(a[0].vec, i) for i in range(a[0].pos, a[1].pos) if ev.binop("==", a[0].vec.items[i], a[2])), a[1].copy_value()),
+        "std::next<*": lambda ev, o, a: a[0].arith("+", a[1] if len(a) > 1 else 1),
+        "std::prev<*": lambda ev, o, a: a[0].arith("-", a[1] if len(a) > 1 else 1),
+        "std::distance<*": lambda ev, o, a: a[1].pos - a[0].pos,
+        "std::mismatch<*": _mismatch,
+        "std::equal<*": _equal,
+        "std::search<*": _search,
         "std::min<*": lambda ev, o, a: a[1] if a[1] < a[0] else a[0],
         "std::max<*": lambda ev, o, a: a[1] if a[0] < a[1] else a[0],
     }
@@ -699,6 +759,8 @@ class CxxEvaluator(Evaluator):
                 if len(vals) == 1 and isinstance(vals[0], Vec):
                     return vals[0].copy_value()
                 raise Broken("vector constructor with unmodelled arguments at %s" % e.get("l"))
+            if len(e.get("a", [])) == 1 and e.get("cm") and c.startswith(("std::shared_ptr<", "std::unique_ptr<", "std::__shared_ptr<")):
+                return self.eval(e["a"][0], env, this)         # copying/moving a smart pointer shares the pointee
             if len(e.get("a", [])) == 1 and (e.get("cm") or "__normal_iterator<" in c):
                 v = self.eval(e["a"][0], env, this)
                 return v.copy_value() if hasattr(v, "copy_value") else v
@@ -790,6 +852,12 @@ class CxxEvaluator(Evaluator):
                     bl = bn.split("::")[-1].split("<")[0]
                     cands += [f for f in self.prog.funcs.values() if f.get("cls") == bn and f["n"] == bl and len(f["params"]) == len(args)
                               and (f.get("body") is not None or f.get("inits"))]
+            if len(cands) > 1 and len(e["targs"]) == len(args) + 1:
+                norm = lambda t: t.replace("const ", "").replace("&", "").replace(" ", "")
+                want = [norm(t) for t in e["targs"][1:]]
+                exact = [f for f in cands if [norm(p_.get("t", "")) for p_ in f["params"]] == want]
+                if len(exact) == 1:
+                    cands = exact
             if len(cands) == 1:
                 return self.construct(cands[0], Obj(T), args)
             if len(args) == 1 and isinstance(args[0], Obj) and args[0]._cls == T:
